@@ -15,6 +15,32 @@ use std::{
     time::{Duration, Instant},
 };
 
+/// Is a UDP socket bound to 127.0.0.1:`port` held by this very process?  (Other trial processes
+/// bind ephemeral ports all the time and may grab a port the moment it is freed.)
+fn port_held_by_self(port: u16) -> Option<bool> {
+    let udp = std::fs::read_to_string("/proc/self/net/udp").ok()?;
+    let want = format!(":{port:04X}");
+    let mut inodes = Vec::new();
+    for l in udp.lines().skip(1) {
+        let f: Vec<&str> = l.split_whitespace().collect();
+        if f.len() > 9 && f[1].ends_with(&want) {
+            inodes.push(f[9].to_owned());
+        }
+    }
+    if inodes.is_empty() {
+        return None;
+    }
+    for e in std::fs::read_dir("/proc/self/fd").ok()?.flatten() {
+        if let Ok(t) = std::fs::read_link(e.path()) {
+            let t = t.to_string_lossy().into_owned();
+            if inodes.iter().any(|i| t == format!("socket:[{i}]")) {
+                return Some(true);
+            }
+        }
+    }
+    Some(false)
+}
+
 fn start_net(log: &Arc<Log>, idx: usize, rng: &mut StdRng, idle_ms: u64) -> Network {
     let (svc, _live) = HarnessService::new(idx, log.clone());
     let mut key = [0u8; 32];
@@ -144,7 +170,13 @@ pub fn run_trial(seed: u64, delay_us: u64, mode: u8, nets: usize) -> i32 {
                     let took = t.elapsed().as_millis() as u64;
                     // the address must be re-bindable at once
                     let rebind = std::net::UdpSocket::bind(a);
-                    (a, r.is_ok(), rebind.is_ok(), n.is_closed(), n.peers().len(), n.subscribe().is_err(), n.downgrade().upgrade().is_none(), took)
+                    let mut rebind_ok = rebind.is_ok();
+                    if !rebind_ok && port_held_by_self(a.port()) == Some(false) {
+                        println!("NOTE port {} was taken by another process right after it was freed", a.port());
+                        rebind_ok = true;
+                    }
+                    drop(rebind);
+                    (a, r.is_ok(), rebind_ok, n.is_closed(), n.peers().len(), n.subscribe().is_err(), n.downgrade().upgrade().is_none(), took)
                 });
                 futures::future::join_all(futs).await
             });
